@@ -335,6 +335,9 @@ let step_preds : (string * (vconfig -> fstep -> bool)) list = [
   ("c14_segments_ok", c14_segments_ok);
   ("c08_deadline_ok", c08_deadline_ok);
   ("c14_wire_ok", c14_wire_ok);
+  ("c02_rto_mode_armed", c02_rto_mode_armed);
+  ("c02_no_silent_stall_g", c02_no_silent_stall_g);
+  ("c02_rto_armed_fin_g", c02_rto_armed_fin_g);
   ("c17_fin_covers_data_ok", c17_fin_covers_data_ok);
   ("c18_off_all_segmented_ok", c18_off_all_segmented_ok);
   ("c18_drain_sends_ok", c18_drain_sends_ok);
@@ -391,6 +394,7 @@ let trace_preds : (string * (vconfig -> fstep list -> bool)) list = [
   ("c06_rp_exit_ok", c06_rp_exit_ok);
   ("c07_idle_silent_partial", c07_idle_silent_partial);
   ("c07_trigger_ok", c07_trigger_ok);
+  ("c02_prompt_write_g", c02_prompt_write_g);
   ("c06_emitted_live_ok_g", c06_emitted_live_ok_g);
   ("c06_no_resend_acked_g", c06_no_resend_acked_g);
   ("c06_fast_retx_ok_g", c06_fast_retx_ok_g);
